@@ -18,11 +18,15 @@ pub mod c06;
 #[cfg(kani)]
 pub mod c06_gen;
 #[cfg(kani)]
+pub mod c13;
+#[cfg(kani)]
 pub mod c03;
 #[cfg(kani)]
 pub mod c04;
 #[cfg(all(kani, feature = "half"))]
 pub mod c02;
+#[cfg(all(kani, feature = "half"))]
+pub mod c07;
 #[cfg(all(kani, feature = "half"))]
 pub mod c12;
 #[cfg(all(kani, feature = "half"))]
